@@ -2,6 +2,7 @@ package main
 
 import (
 	"fmt"
+	"go/token"
 	"strings"
 
 	"golang.org/x/tools/go/ssa"
@@ -342,6 +343,111 @@ func init() {
 	)
 }
 
+// controllingCondsInLoopOf: the conditions that control the block of c, other than leaving a loop that ran before.
+func controllingCondsInLoopOf(c *ssa.Call) []Atom {
+	var out []Atom
+	for _, a := range controllingConds(c.Block()) {
+		if ins, isI := a.V.(ssa.Instruction); isI {
+			if hl := findLoop(ins.Block()); hl != nil && !hl.Body[c.Block()] {
+				continue
+			}
+		}
+		out = append(out, a)
+	}
+	return out
+}
+
+// nonNilOfLiteral: c is slices.DeleteFunc(lit, pred) over a slice literal of this function with a predicate that is
+// exactly `v == nil`: the literal's elements, each marked optional-if-non-nil, in order.
+func nonNilOfLiteral(c *ssa.Call) ([]string, bool) {
+	if calleeName(c) != "slices.DeleteFunc" || len(callArgs(c)) != 2 {
+		return nil, false
+	}
+	mc, ok := callArgs(c)[1].(*ssa.MakeClosure)
+	var pred *ssa.Function
+	if ok {
+		pred, _ = mc.Fn.(*ssa.Function)
+		if len(mc.Bindings) != 0 {
+			return nil, false
+		}
+	} else if f, isFn := callArgs(c)[1].(*ssa.Function); isFn {
+		pred = f
+	}
+	if pred == nil || len(pred.Params) != 1 || len(pred.Blocks) != 1 {
+		return nil, false
+	}
+	rets := returnsOf(pred)
+	if len(rets) != 1 || len(rets[0].Results) != 1 {
+		return nil, false
+	}
+	b, ok := rets[0].Results[0].(*ssa.BinOp)
+	if !ok || b.Op != token.EQL {
+		return nil, false
+	}
+	isParamNil := func(x, y ssa.Value) bool { return x == ssa.Value(pred.Params[0]) && isNilConst(y) }
+	if !isParamNil(b.X, b.Y) && !isParamNil(b.Y, b.X) {
+		return nil, false
+	}
+	elems, ok := seqD(callArgs(c)[0], 0, map[ssa.Value]bool{})
+	if !ok || len(elems) == 0 {
+		return nil, false
+	}
+	var out []string
+	for _, e := range elems {
+		if e.Kind != "elem" {
+			return nil, false
+		}
+		out = append(out, fmt.Sprintf("?%s if (%s!=nil) is true", e.D, e.D))
+	}
+	return out, true
+}
+
+// lenAffine: the length of slice v: len(append(x, e1..ek)) = len(x)+k; otherwise the symbol len(<v>).
+func lenAffine(v ssa.Value) Affine {
+	if c, ok := v.(*ssa.Call); ok && isCallTo(c, "builtin:append") && len(callArgs(c)) == 2 {
+		if t, ok := seqTail(callArgs(c)[1], 0, map[ssa.Value]bool{}); ok {
+			fixed := true
+			for _, e := range t {
+				if e.Kind != "elem" {
+					fixed = false
+				}
+			}
+			if fixed {
+				return lenAffine(callArgs(c)[0]).add(affConst(int64(len(t))))
+			}
+		}
+	}
+	return affSym("len(" + desc(v) + ")")
+}
+
+// lenIndexAffine: an index expression made of len(slice), integer constants, + and -, with lengths as in lenAffine.
+func lenIndexAffine(v ssa.Value) (Affine, bool) {
+	switch x := v.(type) {
+	case *ssa.Call:
+		if isCallTo(x, "builtin:len") && len(callArgs(x)) == 1 {
+			return lenAffine(callArgs(x)[0]), true
+		}
+	case *ssa.BinOp:
+		if x.Op == token.ADD || x.Op == token.SUB {
+			a, ok1 := lenIndexAffine(x.X)
+			b, ok2 := lenIndexAffine(x.Y)
+			if ok1 && ok2 {
+				if x.Op == token.SUB {
+					b = b.scale(-1)
+				}
+				return a.add(b), true
+			}
+		}
+	case *ssa.Const:
+		if c, ok := constInt(x); ok {
+			return affConst(c), true
+		}
+	case *ssa.Convert:
+		return lenIndexAffine(x.X)
+	}
+	return affineOf(v)
+}
+
 func getHashNumberRule(P *Program, R *Report) {
 	rule := "C15.b"
 	const key = "common.GetHashNumber"
@@ -381,8 +487,16 @@ func getHashNumberRule(P *Program, R *Report) {
 			case *ssa.Call:
 				if isCallTo(x, "builtin:append") {
 					t, ok := seqTail(callArgs(x)[1], 0, map[ssa.Value]bool{})
-					if ok && len(t) == 1 && lastElem == nil && len(tail) == 0 {
-						lastElem = t[0].V
+					if ok && len(t) >= 1 && lastElem == nil && len(tail) == 0 {
+						lastElem = t[len(t)-1].V
+					}
+					if ok && len(t) > 1 && len(controllingCondsInLoopOf(x)) == 0 {
+						// `append(l, x, y)`: the elements in order (unconditional appends only)
+						var ds []string
+						for _, e := range t {
+							ds = append(ds, e.D)
+						}
+						tail = append(ds, tail...)
 					}
 					if ok && len(t) == 1 {
 						cond := ""
@@ -400,6 +514,12 @@ func getHashNumberRule(P *Program, R *Report) {
 						tail = append([]string{t[0].D + cond}, tail...)
 					}
 					v = callArgs(x)[0]
+					continue
+				}
+				// `slices.DeleteFunc([]*big.Int{a, b}, func(v *big.Int) bool { return v == nil })`: the literal's non-nil elements
+				if kept, ok := nonNilOfLiteral(x); ok {
+					tail = append(kept, tail...)
+					v = nil
 					continue
 				}
 			case *ssa.Phi:
@@ -499,11 +619,12 @@ func getHashNumberRule(P *Program, R *Report) {
 			}
 			// counter: tmp[countIdx].Add(tmp[countIdx], 1)
 			d0, d1 := desc(callArgs(c)[0]), desc(callArgs(c)[1])
-			isCounter := d0 == d1 && strings.Contains(d0, "[len(")
-			// list[len(list)-1]: the last element of the hashed list
+			isCounter := false
+			// list[len(list)-1]: the last element of the hashed list, with the length of a list that was appended to
+			// counted as the length before plus the number of elements appended
 			if ld, isLoad := callArgs(c)[0].(*ssa.UnOp); isLoad && d0 == d1 {
 				if ia, isIA := ld.X.(*ssa.IndexAddr); isIA && ia.X == list {
-					if a, ok := affineOf(ia.Index); ok && a.String() == parseAffine("len("+desc(list)+")-1").String() {
+					if a, ok := lenIndexAffine(ia.Index); ok && a.String() == lenAffine(list).add(affConst(-1)).String() {
 						isCounter = true
 					}
 				}
